@@ -20,7 +20,7 @@ var vpBuiltinNames = []string{
 	"mapToArr", "join", "toString", "toInt", "toFloat",
 	// names that are not builtins: a missing name, data values that are not functions, host functions of odd shapes
 	"undefinedName", "notAFunction", "hostSlice", "hostOneResult", "hostThreeResults", "hostNonError", "hostIface", "hostMap", "hostVar", "true",
-	"hostCtxVar", "hostCtx", "hostStruct", "hostPtr", "hostNested",
+	"hostCtxVar", "hostCtx", "hostStruct", "hostPtr", "hostNested", "hostNilFunc", "hostIfaces", "hostIfaceMap",
 }
 
 const (
@@ -39,6 +39,9 @@ const (
 	akArrSlices // Go array of slices (not comparable)
 	akStruct    // comparable struct value
 	akPtr       // pointer to struct
+	akIntMap    // map with non-string keys
+	akNilMap    // typed nil map
+	akNullMap   // map holding a null entry
 	akKinds
 )
 
@@ -87,6 +90,12 @@ func vpArgValue(i int) interface{} {
 		return vpPerson{Name: "n", Age: 1}
 	case akPtr:
 		return &vpPerson{Name: "p", Age: 2}
+	case akIntMap:
+		return map[int]string{1: "one"}
+	case akNilMap:
+		return map[string]interface{}(nil)
+	case akNullMap:
+		return map[string]interface{}{"k": nil, "j": 1}
 	}
 	return nil
 }
@@ -114,6 +123,9 @@ func VP_C03_calls() {
 		"hostStruct":       func(p vpPerson) (int, error) { return p.Age, nil },
 		"hostPtr":          func(p *vpPerson) (int, error) { return 1, nil },
 		"hostNested":       func(xs [][]int, m map[string][]string) (int, error) { return len(xs) + len(m), nil },
+		"hostNilFunc":      (func(x interface{}) (int, error))(nil),
+		"hostIfaces":       func(xs []interface{}) (int, error) { return len(xs), nil },
+		"hostIfaceMap":     func(m map[string]interface{}) (int, error) { return len(m), nil },
 	}
 	args := new(NodeList[Expression])
 	names := vpArgNames()
